@@ -76,7 +76,11 @@ func (ex *Exec) intrinsic(fn *ssa.Function, args []Value, site token.Pos) (Value
 	if h == nil {
 		return nil, false
 	}
-	return h(ex, fn, args, site), true
+	r := h(ex, fn, args, site)
+	if r == Value(notHandled) {
+		return nil, false
+	}
+	return r, true
 }
 
 func (ex *Exec) fresh(kind string, w int) *Term {
@@ -200,6 +204,20 @@ func init() {
 			ex.havocs[ex.argStr(args[0])+"#"+ex.argStr(args[1])] = true
 			ex.noReplay = true
 			return nil
+		},
+		z + "HavocU64": func(ex *Exec, fn *ssa.Function, args []Value, site token.Pos) Value {
+			if ex.havocs == nil {
+				ex.havocs = map[string]bool{}
+			}
+			if ex.havocVals == nil {
+				ex.havocVals = map[string]*Term{}
+			}
+			k := ex.argStr(args[0]) + "#" + ex.argStr(args[1])
+			ex.havocs[k] = true
+			t := ex.fresh("u64", 64)
+			ex.havocVals[k] = t
+			ex.noReplay = true
+			return t
 		},
 		z + "LocksetBegin": func(ex *Exec, fn *ssa.Function, args []Value, site token.Pos) Value {
 			ex.recording = true
@@ -593,9 +611,14 @@ func (ex *Exec) symFormat(name, format string, argv SliceV) (*StrV, bool) {
 			switch format[i] {
 			case '%':
 				out = append(out, ex.tc.Const(8, '%'))
-			case 's', 'v':
+			case 's', 'v', 'd':
 				s, ok := strArg(ai)
-				if !ok {
+				if !ok && ai < argv.len {
+					if iv, isI := ex.sliceGet(argv, ai).(IfaceV); isI {
+						s, ok = ex.fmtDecimalArg(iv)
+					}
+				}
+				if !ok || (format[i] == 'd' && false) {
 					return nil, false
 				}
 				ai++
@@ -608,6 +631,11 @@ func (ex *Exec) symFormat(name, format string, argv SliceV) (*StrV, bool) {
 	case "Sprint":
 		for i := 0; i < argv.len; i++ {
 			s, ok := strArg(i)
+			if !ok {
+				if iv, isI := ex.sliceGet(argv, i).(IfaceV); isI && argv.len == 1 {
+					s, ok = ex.fmtDecimalArg(iv)
+				}
+			}
 			if !ok {
 				return nil, false
 			}
